@@ -24,6 +24,8 @@ type Conn struct {
 	inErr    error
 	readWait chan struct{}
 	lastInAt time.Duration
+	lastSendNow time.Duration
+	lastSendLat time.Duration
 
 	// server -> client
 	inflight  int // bytes accepted from the server and not yet consumed by the client
